@@ -132,6 +132,7 @@ def run(ctx):
     ctx.audit("Babylon.Properties.C04")
     if not ctx.quick:
         ctx.leanchecker(["Babylon.CVec.Model", "Babylon.Properties.C04"])
+    ctx.log("proofs built and audited")
     drv = ctx.driver("drv_C04")
     exe, log = build_vrt_exe("c04", SRCS)
     if exe is None:
@@ -143,6 +144,7 @@ def run(ctx):
         return
     if drv is None:
         return
+    ctx.log("driver and harnesses built")
     dist = {"verdicts": {}, "features": {}, "block_sizes": {}, "start_clock": {}, "replay_ok": 0, "replay_diverge": 0, "oracle": 0,
             "max_trace": 0, "seq_ops": {}, "seq_oracle": 0, "seq_divergences": 0, "corpus": 0}
     distinct = set()
@@ -167,6 +169,7 @@ def run(ctx):
             dist["seq_divergences"] += 1
             ctx.broke("correspondence", "E-SEQ c04 index arithmetic", "op %r: impl %r, model %r" % (op, a, b))
 
+    ctx.log("E-SEQ done: %d cases, %d differences" % (len(cases), len(diffs)))
     # ---- E-CONC: corpus first, then seeded programs
     for f in sorted((VERIF / "corpus" / "C04").glob("*.txt")):
         runs = ctx.econc(exe, drv, ["script", str(f)], ctx.seed, 1)
@@ -180,6 +183,7 @@ def run(ctx):
     for what, cnt, env in [("rand", n, {}), ("rand/pct", n // 3, {"VRT_STRATEGY": "pct"})]:
         runs = ctx.econc(exe, drv, ["rand"], seed0 + (0 if not env else 7 * n), cnt, env=env)
         classify(ctx, dist, distinct, runs, what)
+        ctx.log("E-CONC %s: %d runs" % (what, len(runs)))
         if not samples and runs:
             samples.append(runs[0]["lines"][:60])
     ctx.cov["distribution"] = dist
